@@ -685,6 +685,16 @@ def generator_as_expression(fn):
             conds.append(_Subst(env).visit(copy.deepcopy(st.test)))
             stmts = list(st.body)
             continue
+        # the nested form the loader gives guard clauses:  if c: pass / else: REST
+        if isinstance(st, ast.If) and not stmts and st.orelse and all(isinstance(x, ast.Pass) for x in st.body):
+            t_ = _Subst(env).visit(copy.deepcopy(st.test))
+            conds.append(t_.operand if isinstance(t_, ast.UnaryOp) and isinstance(t_.op, ast.Not) else ast.UnaryOp(op=ast.Not(), operand=t_))
+            stmts = list(st.orelse)
+            continue
+        if isinstance(st, ast.If) and not stmts and st.orelse and all(isinstance(x, ast.Pass) for x in st.orelse):
+            conds.append(_Subst(env).visit(copy.deepcopy(st.test)))
+            stmts = list(st.body)
+            continue
         if isinstance(st, ast.Expr) and isinstance(st.value, ast.Yield) and not stmts and st.value.value is not None:
             value = _Subst(env).visit(copy.deepcopy(st.value.value))
             continue
